@@ -173,7 +173,7 @@ def jobs(tier, seed):
                 js.append({'harness': 'rt', 'cfg': cfg, 'weight': 4 ** sum(procs)})
     # sync() re-bases the origin: idle wall time before the run, sync at step 0 / 1
     for strict in (True, False):
-        for sync_at in ([0], [1], [0, 1]):
+        for sync_at in ([0], [1], [2], [1, 3]):     # step 2 / 3: after simulated time has advanced
             js.append({'harness': 'rt', 'weight': 20,
                        'cfg': {'procs': [2], 'factor': '1', 'strict': strict, 'sorts': 'real', 'early': 1,
                                'idle_before_run': True, 'sync_at': sync_at}})
